@@ -212,6 +212,17 @@ def stalled3_case(bits=10):
             'sched': [0, 0, 0] + [1] * (3 * per * 10 + 60), 'stops': []}
 
 
+def late_cas_case(bits=10, park=10, n0=0, init=5):
+    """A trips the term end and is parked right before its CAS on the active term count (after its CAS on the next tail);
+    B completes that rotation, fills the next term and rotates again; then A resumes: its CAS must fail and change nothing"""
+    tl = 1 << bits
+    per = tl // 128
+    return {'kind': 'latecas', 'bits': bits, 'mtu': 256, 'init': init, 'n0': n0, 'off0': tl - 64, 'limit': (n0 + 3) * tl,
+            'threads': [{'k': 'P', 'budget': 1, 'msgs': [[1, 64]]},
+                        {'k': 'P', 'budget': per + 5, 'msgs': [[k, 96] for k in range(2, 2 + per)] + [[98, 96], [99, 40]]}],
+            'sched': [0] * park + [1] * (per * 12 + 80), 'stops': []}
+
+
 def generate(rng, tier):
     big = tier == 'thorough'
     cases = []
@@ -269,7 +280,11 @@ def generate(rng, tier):
         c['sched'] = [5, 7] + random_schedule(rng, c)
         c['kind'] = 'malformed'
         cases.append(c)
-    # (5) the known finding
+    # (5) a rotator parked inside rotate_log while the others rotate again (every park point of the rotation)
+    for park in (8, 9, 10):
+        cases.append(late_cas_case(park=park))
+    cases.append(late_cas_case(bits=11, park=10, n0=2, init=2**31 - 2))
+    # (6) the known finding
     cases.append(stalled3_case())
     return cases
 
